@@ -680,6 +680,20 @@ def extract_type(repo, blk, meta):
             raise X.LostAnchor('%s::%s: substitution pattern `%s` not found' % (rel, kv['name'], pat))
     item = X.relex(item)
     t = text(item)
+    if kv['kind'] == 'const' and 'enumcast' in kv:
+        # R37: `Enum::Variant as u8` on the right-hand side of a constant (Verus has no exec-mode enum-to-integer cast) is replaced by the discriminant the
+        # enum's definition gives that variant -- read from the source file named by `enumcast=<file>:<Enum>` on every run
+        efile, ename = kv['enumcast'].split(':')
+        esrc, etoks = X.load(repo, efile)
+        ea, ee, eob = X.find_typedef(etoks, 'enum', ename)
+        etext = text(X.strip_comments(etoks[ea:ee + 1]))
+        def _disc(m):
+            mm2 = re.search(r'\b%s\s*=\s*(0x[0-9A-Fa-f_]+|[0-9_]+)' % re.escape(m.group(1)), etext)
+            if not mm2:
+                raise X.LostAnchor('%s::%s: no explicit discriminant for %s::%s in %s' % (rel, kv['name'], ename, m.group(1), efile))
+            log.append(('R37', '%s::%s as u8 -> %s (discriminant in %s)' % (ename, m.group(1), mm2.group(1), efile), src_line))
+            return re.sub(r'_u8$|_', '', mm2.group(1)) if not mm2.group(1).startswith('0x') else mm2.group(1).replace('_u8', '').replace('_', '')
+        t = re.sub(r'\b%s::([A-Za-z0-9_]+)\s+as\s+u8' % re.escape(ename), _disc, t)
     if 'as' in kv:
         t = re.sub(r'^(struct|enum)\s+%s\b' % re.escape(kv['name']), r'\1 ' + kv['as'], t)
     if 'keeprepr' in blk.flags:
